@@ -1,3 +1,520 @@
-/- C07: property theorems (stub, not yet built) -/
+/-
+C07 — Disruption never targets protected or ineligible nodes.
+
+Property theorems only (helper lemmas: `Karp/Proofs/CandidateLemmas.lean`, `Karp/Proofs/CandidateHistory.lean`).
+Model: `Karp/Model/Candidate.lean` (the anchored Go code as it is: pod predicates, PDB limits, StateNode validators,
+       NewCandidate, the five ShouldDisrupt filters, the Consolidatable sub-controller, the in-memory windows).
+Spec:  `Karp/Spec/Protected.lean` (one predicate per blocker of the property text; `allowed w m`).
+
+Every theorem is over ALL worlds: any NodeClaim / Node / NodePool state, any list of pods and PDBs, any clock value.
+-/
+import Karp.Proofs.CandidateHistory
+
 namespace Karp.C07
+open Karp.Candidate Karp.Spec.Protected Karp.Spec.ProtectedHistory Karp.CandidateLemmas Karp.CandidateHistory Karp.Gen
+
+/-! ## Fact expectations over the regenerated facts -/
+
+/-- the controller runs exactly the five methods the model covers -/
+theorem fact_method_order :
+    CandidateFacts.methodOrder.length = 5 ∧ ∀ m ∈ Method.all, m.name ∈ CandidateFacts.methodOrder := by decide
+
+/-- "only drift may override": Drift and StaticDrift are the only methods of the eventual class, the three
+    consolidation methods are graceful, and no other type in the package declares a class -/
+theorem fact_method_classes :
+    classOf? .emptiness = some .graceful ∧ classOf? .multi = some .graceful ∧ classOf? .single = some .graceful ∧
+    classOf? .drift = some .eventual ∧ classOf? .staticDrift = some .eventual ∧
+    CandidateFacts.methodClass.length = 5 := by decide
+
+theorem fact_classes_distinct : CandidateFacts.gracefulClass ≠ CandidateFacts.eventualClass := by decide
+
+/-- the protection window after a nomination: max(2 × BatchMaxDuration, 10 s) -/
+theorem fact_nomination_window :
+    CandidateFacts.nominationBatchFactor = 2 ∧ CandidateFacts.nominationFloorNs = 10 * 1000000000 := by decide
+
+/-- eviction cost = 1 + deletionCost/2^27 + priority/2^25, clamped to an interval that contains 0 in its interior
+    (so clamping never changes the sign the emptiness test looks at) -/
+theorem fact_eviction_cost :
+    CandidateFacts.evictionBase = 1 ∧ CandidateFacts.evictionDelExp = 27 ∧ CandidateFacts.evictionPrioExp = 25 ∧
+    CandidateFacts.evictionClampLo < 0 ∧ 0 < CandidateFacts.evictionClampHi := by decide
+
+/-- the per-node base cost that `IsEmpty` compares with is the one `computeRescheduleDisruptionCost` starts from -/
+theorem fact_base_cost : CandidateFacts.perNodeBaseCostNum = 1 ∧ CandidateFacts.perNodeBaseCostDen = 1 := by decide
+
+/-- the Drift method reads the condition named like its reason -/
+theorem fact_drift_condition : CandidateFacts.reasonDrifted = CandidateFacts.condDrifted := by decide
+
+theorem fact_keys :
+    CandidateFacts.doNotDisruptKey = "karpenter.sh/do-not-disrupt" ∧
+    CandidateFacts.nodePoolLabelKey = "karpenter.sh/nodepool" ∧
+    CandidateFacts.nodeInitializedLabelKey = "karpenter.sh/initialized" ∧
+    CandidateFacts.condConsolidatable = "Consolidatable" ∧
+    CandidateFacts.policyWhenEmpty = "WhenEmpty" := by decide
+
+/-- every check the model of `ValidateNodeDisruptable` / `ValidatePodsDisruptable` / `NewCandidate` makes is still
+    called by the Go function (membership, not order: a reordering is harmless) -/
+theorem fact_validator_calls :
+    (∀ c ∈ ["Initialized", "MarkedForDeletion", "Nominated", "Annotations", "Labels"], c ∈ CandidateFacts.validateNodeCalls) ∧
+    (∀ c ∈ ["Pods", "IsDisruptable", "CanEvictPods"], c ∈ CandidateFacts.validatePodsCalls) ∧
+    "Deleted" ∈ CandidateFacts.markedForDeletionCalls ∧
+    (∀ c ∈ ["HasAny", "ValidateNodeDisruptable", "ValidatePodsDisruptable", "IgnorePodBlockEvictionError"],
+        c ∈ CandidateFacts.newCandidateCalls) ∧
+    (∀ c ∈ ["DeepCopyNodes", "NewCandidate", "shouldDisrupt"], c ∈ CandidateFacts.getCandidatesCalls) := by decide
+
+theorem fact_filter_calls :
+    (∀ c ∈ ["OwnedByStaticNodePool", "IsEmpty", "IsTrue"], c ∈ CandidateFacts.consolidationFilterCalls) ∧
+    (∀ c ∈ ["OwnedByStaticNodePool", "HasBufferPods", "IsEmpty", "IsTrue"], c ∈ CandidateFacts.emptinessFilterCalls) ∧
+    (∀ c ∈ ["OwnedByStaticNodePool", "IsTrue"], c ∈ CandidateFacts.driftFilterCalls) ∧
+    (∀ c ∈ ["OwnedByStaticNodePool", "IsTrue"], c ∈ CandidateFacts.staticDriftFilterCalls) ∧
+    (∀ c ∈ ["IsActive", "ToleratesDisruptedNoScheduleTaint", "IsOwnedByNode", "IsDoNotDisruptActive"],
+        c ∈ CandidateFacts.isEvictableCalls) ∧
+    (∀ c ∈ ["IsActive", "IsDoNotDisruptActive"], c ∈ CandidateFacts.isDisruptableCalls) ∧
+    (∀ c ∈ ["Clear", "IsUnderConsolidateAfter", "SetTrue"], c ∈ CandidateFacts.consolidatableCalls) := by decide
+
+/-! ## The main theorem: all worlds × all five methods -/
+
+/-- **C07_no_protected** — for every world and each of the five methods: if the method selects the node, then the
+    node is managed, initialized, not deleting (nor already queued), not recently nominated, not annotated
+    do-not-disrupt, hosts no pod with an active do-not-disrupt annotation or a blocking PDB unless the method is a
+    drift method and the NodeClaim has a terminationGracePeriod; and consolidation methods additionally had a
+    Consolidatable NodeClaim of a dynamic pool with consolidation enabled, a policy other than WhenEmpty unless the
+    node is empty (buffer placements count as non-empty), the emptiness method only ever taking empty nodes.
+    `wellFormed`: the initialized label is only found on nodes that carry the registered label (lifecycle order). -/
+theorem C07_no_protected (w : World) (m : Method) (hwf : wellFormed w = true) (h : selected w m = true) :
+    allowed w m = true :=
+  selected_allowed hwf h
+
+/-- **C07_blockers** — the conclusion of `C07_no_protected`, one blocker of the property's list at a time; the
+    pod-level blockers may only be present for a drift method on a NodeClaim with a terminationGracePeriod -/
+theorem C07_blockers (w : World) (m : Method) (hwf : wellFormed w = true) (h : selected w m = true) :
+    unmanaged w = false ∧ uninitialized w = false ∧ deleting w = false ∧ recentlyNominated w = false ∧
+    nodeDoNotDisrupt w = false ∧
+    ((podDoNotDisrupt w = true ∨ pdbBlocks w = true) → isDrift m = true ∧ hasTGP w = true) := by
+  obtain ⟨h1, h2, _⟩ := allowed_unfold (selected_allowed hwf h)
+  unfold nodeLevelBlocker at h1
+  simp only [Bool.or_eq_false_iff] at h1
+  obtain ⟨⟨⟨⟨a, b⟩, c⟩, d⟩, e⟩ := h1
+  refine ⟨a, b, c, d, e, ?_⟩
+  intro hp
+  rcases h2 with h2 | h2
+  · unfold podLevelBlocker at h2
+    simp only [Bool.or_eq_false_iff] at h2
+    rcases hp with hp | hp
+    · rw [h2.1] at hp; cases hp
+    · rw [h2.2] at hp; cases hp
+  · unfold mayOverride at h2
+    simpa using h2
+
+/-- **C07_graceful_never_overrides** — emptiness and the two consolidation methods never select a node hosting a
+    pod with an active do-not-disrupt annotation or a blocking PDB, terminationGracePeriod or not -/
+theorem C07_graceful_never_overrides (w : World) (m : Method) (hwf : wellFormed w = true)
+    (hm : isDrift m = false) (h : selected w m = true) : podDoNotDisrupt w = false ∧ pdbBlocks w = false := by
+  obtain ⟨_, _, _, _, _, hp⟩ := C07_blockers w m hwf h
+  constructor
+  · cases hd : podDoNotDisrupt w with
+    | false => rfl
+    | true => have := (hp (Or.inl hd)).1; rw [hm] at this; cases this
+  · cases hd : pdbBlocks w with
+    | false => rfl
+    | true => have := (hp (Or.inr hd)).1; rw [hm] at this; cases this
+
+/-- **C07_consolidation** — what consolidation additionally requires -/
+theorem C07_consolidation (w : World) (m : Method) (hwf : wellFormed w = true)
+    (hm : isConsolidation m = true) (h : selected w m = true) :
+    consolidatable w = true ∧ w.pool.static = false ∧ w.pool.consolidateAfter.isSome = true ∧
+    (empty w = false → w.pool.policy ≠ .whenEmpty) ∧ (m = .emptiness → empty w = true ∧ w.buffer = 0) := by
+  obtain ⟨_, _, h3⟩ := allowed_unfold (selected_allowed hwf h)
+  have hc := h3 hm
+  unfold consolidationOk at hc
+  simp only [Bool.and_eq_true, Bool.not_eq_true', Bool.or_eq_true, bne_iff_ne, ne_eq] at hc
+  obtain ⟨⟨⟨⟨a, b⟩, c⟩, d⟩, e⟩ := hc
+  refine ⟨a, b, c, ?_, ?_⟩
+  · intro he; rcases d with d | d
+    · rw [he] at d; cases d
+    · exact d
+  · intro hm'
+    rcases e with e | e
+    · exact absurd hm' e
+    · refine ⟨e, ?_⟩
+      unfold empty at e
+      simp only [Bool.and_eq_true, beq_iff_eq] at e
+      exact e.1
+
+/-! ## Time-valued annotations and the nomination window -/
+
+/-- **C07_dnd_duration** — a duration-valued annotation is active iff the duration is positive and, when the pod
+    has a start time, `now - start < d` (no start time: active, fail safe) -/
+theorem C07_dnd_duration (now d : Int) (p : Pod) (hd : p.dnd = .dur d) :
+    dndActive now p = true ↔ (0 < d ∧ ∀ s, p.start = some s → now - s < d) := by
+  unfold dndActive
+  rw [hd]
+  simp only
+  by_cases h0 : d ≤ 0
+  · simp only [h0, if_true]
+    constructor
+    · intro h; cases h
+    · intro h; omega
+  · have hpos : 0 < d := by omega
+    simp only [h0, if_false]
+    cases hs : p.start with
+    | none => simp [hpos]
+    | some s => simp [hpos]
+
+/-- **C07_dnd_expiry_monotone** — time only moves forward: an expired duration annotation never becomes active again, and until
+    `start + d` it is active at every instant -/
+theorem C07_dnd_expiry_monotone (now now' d s : Int) (p : Pod) (hd : p.dnd = .dur d) (hs : p.start = some s)
+    (hle : now ≤ now') (hoff : dndActive now p = false) : dndActive now' p = false := by
+  unfold dndActive at *
+  rw [hd] at *
+  simp only [hs] at *
+  by_cases h0 : d ≤ 0
+  · simp [h0]
+  · simp only [h0, if_false, decide_eq_false_iff_not] at *
+    omega
+
+/-- **C07_dnd_protects_until** — … and it is active at every instant before `start + d` -/
+theorem C07_dnd_protects_until (now d s : Int) (p : Pod) (hd : p.dnd = .dur d) (hs : p.start = some s)
+    (hpos : 0 < d) (hlt : now < s + d) : dndActive now p = true := by
+  rw [C07_dnd_duration now d p hd]
+  refine ⟨hpos, ?_⟩
+  intro s' hs'; rw [hs] at hs'; cases hs'; omega
+
+/-- **C07_active_annotation_blocks** — a running pod whose annotation is active blocks every graceful method and every drift method without TGP -/
+theorem C07_active_annotation_blocks (w : World) (m : Method) (p : Pod) (hwf : wellFormed w = true)
+    (hp : p ∈ w.pods) (hon : p.onNode = true) (hrun : p.terminal = false ∧ p.terminating = false)
+    (hact : dndActive w.now p = true) (hno : isDrift m = false ∨ hasTGP w = false) : selected w m = false := by
+  cases hsel : selected w m with
+  | false => rfl
+  | true =>
+    exfalso
+    obtain ⟨_, _, _, _, _, hpod⟩ := C07_blockers w m hwf hsel
+    have hblk : podDoNotDisrupt w = true := by
+      unfold podDoNotDisrupt hosted
+      rw [List.any_eq_true]
+      refine ⟨p, List.mem_filter.mpr ⟨hp, hon⟩, ?_⟩
+      rw [← dnd_eq, hact]
+      simp [running, hrun.1, hrun.2]
+    obtain ⟨h1, h2⟩ := hpod (Or.inl hblk)
+    rcases hno with h | h
+    · rw [h] at h1; cases h1
+    · rw [h] at h2; cases h2
+
+/-- **C07_nomination_window** — a node nominated at instant `t` is not selected by any method before
+    `t + max(10 s, 2 × BatchMaxDuration)` -/
+theorem C07_nomination_window (w : World) (m : Method) (t : Int) (hwf : wellFormed w = true)
+    (hn : w.nominatedAt = some t) (h : selected w m = true) :
+    t + 10 * 1000000000 ≤ w.now ∧ t + 2 * w.batchMax ≤ w.now := by
+  obtain ⟨_, _, _, hr, _, _⟩ := C07_blockers w m hwf h
+  unfold recentlyNominated at hr
+  rw [hn] at hr
+  simp only [decide_eq_false_iff_not, Int.not_lt] at hr
+  unfold window at hr
+  have h1 : ((CandidateFacts.nominationFloorNs : Nat) : Int) = 10 * 1000000000 := by decide
+  have h2 : ((CandidateFacts.nominationBatchFactor : Nat) : Int) = 2 := by decide
+  rw [h1, h2] at hr
+  constructor <;> omega
+
+/-! ## The Consolidatable condition -/
+
+/-- **C07_consolidatable** — the sub-reconciler sets Consolidatable exactly when the specification allows it:
+    consolidation enabled, NodeClaim initialized, and consolidateAfter elapsed since the last pod event (since the
+    Initialized transition when there was none); otherwise it removes the condition. -/
+theorem C07_consolidatable (pool : Pool) (c : Claim) (now : Int) (hdyn : pool.static = false) :
+    (consolidatableAfter pool c now = .true_ ↔ mayBeConsolidatable pool c now = true) ∧
+    (mayBeConsolidatable pool c now = false → consolidatableAfter pool c now = .absent) := by
+  rw [consolidatableAfter_eq pool c now hdyn]
+  cases mayBeConsolidatable pool c now <;> simp
+
+/-- **C07_consolidatable_elapsed** — what "elapsed" means, in the open -/
+theorem C07_consolidatable_elapsed (pool : Pool) (c : Claim) (now : Int)
+    (h : mayBeConsolidatable pool c now = true) :
+    pool.static = false ∧ c.initialized = .true_ ∧
+    ∃ ca, pool.consolidateAfter = some ca ∧ (ca = 0 ∨ c.lastPodEvent.getD c.initAt + ca ≤ now) := by
+  unfold mayBeConsolidatable at h
+  cases hca : pool.consolidateAfter with
+  | none => simp [hca] at h
+  | some ca =>
+    simp only [hca, Bool.and_eq_true, Bool.not_eq_true', beq_iff_eq] at h
+    obtain ⟨hs, hi, he⟩ := h
+    refine ⟨hs, hi, ca, rfl, ?_⟩
+    unfold elapsedSince at he
+    cases hl : c.lastPodEvent <;> simp_all
+
+/-- **C07_reconcile** — the whole controller: a NodeClaim it must not touch keeps its condition; a live NodeClaim of an existing dynamic
+    pool ends up Consolidatable iff the specification allows it -/
+theorem C07_reconcile (pool : Pool) (c : Claim) (now : Int) :
+    let c' := reconcileClaim pool c now
+    (c.deleting = true ∨ c.md.pool ≠ .this ∨ pool.present = false ∨ pool.static = true → c' = c) ∧
+    (c.deleting = false → c.md.pool = .this → pool.present = true → pool.static = false →
+      (c'.consolidatable = .true_ ↔ mayBeConsolidatable pool c now = true)) := by
+  rw [← afterController_eq]
+  unfold afterController
+  constructor
+  · intro h
+    rcases h with h | h | h | h
+    · simp [h]
+    · have : (c.md.pool != PoolRef.this) = true := by simpa using h
+      simp [this]
+    · simp [h]
+    · simp [h]
+  · intro h1 h2 h3 h4
+    simp only [h1, h2, h3, h4]
+    cases mayBeConsolidatable pool c now <;> simp
+
+/-- **C07_consolidation_pipeline** — when the condition on the NodeClaim is the one the controller has just
+    maintained (same instant), a consolidation method selecting the node implies that consolidateAfter has elapsed
+    since the last pod event. -/
+theorem C07_consolidation_pipeline (w : World) (c : Claim) (m : Method)
+    (hc : w.claim = some (reconcileClaim w.pool c w.now))
+    (hlive : c.deleting = false) (hlbl : c.md.pool = .this)
+    (hwf : wellFormed w = true) (hm : isConsolidation m = true) (h : selected w m = true) :
+    mayBeConsolidatable w.pool c w.now = true := by
+  obtain ⟨hcons, hdyn, _, _, _⟩ := C07_consolidation w m hwf hm h
+  -- the pool exists: the node is managed
+  obtain ⟨hun, _, _, _, _, _⟩ := C07_blockers w m hwf h
+  have hpres : w.pool.present = true := by
+    unfold unmanaged at hun
+    simp only [Bool.or_eq_false_iff] at hun
+    cases hn : w.node with
+    | none => simp [hn] at hun
+    | some n =>
+      simp only [hn, Bool.or_eq_false_iff, Bool.not_eq_false'] at hun
+      exact hun.2.1.2
+  have := (C07_reconcile w.pool c w.now).2 hlive hlbl hpres hdyn
+  apply this.mp
+  unfold consolidatable at hcons
+  rw [hc] at hcons
+  simpa using hcons
+
+/-! ## histories -/
+
+/-- **C07_state_refines_log** — after ANY event sequence the cluster-state entry (flags, "until" instant, cached
+    objects) is exactly what the log of the history stands for. -/
+theorem C07_state_refines_log (b : Int) (pool : Pool) (es : List Ev) (t0 : Int) :
+    hrun b pool { now := t0, sn := none } es = absState b (specRun pool { now := t0 } es) := by
+  have := (run_abs b pool es { now := t0 } (loginv_init t0)).1
+  rwa [abs_init] at this
+
+/-- **C07_history** — for every event history and every method: if the method selects the node after the history,
+    the node the log describes is not protected: in particular the last mark/unmark record is not a mark and no
+    nomination record is younger than the window. -/
+theorem C07_history (env : World) (es : List Ev) (t0 : Int) (m : Method)
+    (hwf : wellFormed ((specRun env.pool { now := t0 } es).world env) = true)
+    (h : hselected env (hrun env.batchMax env.pool { now := t0, sn := none } es) m = true) :
+    allowedAfter env (specRun env.pool { now := t0 } es) m = true :=
+  history_allowed env es t0 m hwf h
+
+theorem C07_history_windows (env : World) (es : List Ev) (t0 : Int) (m : Method)
+    (hwf : wellFormed ((specRun env.pool { now := t0 } es).world env) = true)
+    (h : hselected env (hrun env.batchMax env.pool { now := t0, sn := none } es) m = true) :
+    (specRun env.pool { now := t0 } es).marks.getLast? ≠ some true ∧
+    (∀ t ∈ (specRun env.pool { now := t0 } es).noms,
+      t + 10 * 1000000000 ≤ (specRun env.pool { now := t0 } es).now ∧
+      t + 2 * env.batchMax ≤ (specRun env.pool { now := t0 } es).now) := by
+  have ha := C07_history env es t0 m hwf h
+  generalize specRun env.pool { now := t0 } es = l at *
+  unfold allowedAfter at ha
+  simp only [Bool.and_eq_true, Bool.not_eq_true'] at ha
+  obtain ⟨⟨_, hall⟩, hrec⟩ := ha
+  obtain ⟨hnl, _, _⟩ := allowed_unfold hall
+  constructor
+  · unfold nodeLevelBlocker at hnl
+    simp only [Bool.or_eq_false_iff] at hnl
+    have hd := hnl.1.1.2
+    unfold deleting at hd
+    simp only [Bool.or_eq_false_iff] at hd
+    have hm : l.marked = false := hd.1.1
+    unfold Log.marked at hm
+    intro hc; rw [hc] at hm; simp at hm
+  · intro t ht
+    unfold Log.recentlyNominated at hrec
+    have := List.any_eq_false.mp hrec t ht
+    simp only [decide_eq_true_eq, Int.not_lt] at this
+    unfold window at this
+    have h1 : ((CandidateFacts.nominationFloorNs : Nat) : Int) = 10 * 1000000000 := by decide
+    have h2 : ((CandidateFacts.nominationBatchFactor : Nat) : Int) = 2 := by decide
+    rw [h1, h2] at this
+    constructor <;> omega
+
+/-- **C07_history_consolidatable** — along any history: if the last thing that happened to the NodeClaim was a run
+    of the nodeclaim.disruption controller (at the instant the prefix `es₁` ends, on the live, labelled NodeClaim `c`),
+    and a consolidation method selects the node after any number of later clock ticks, nominations, marks and Node
+    events, then at that run consolidateAfter had elapsed since the last pod event and `c` was initialized. -/
+theorem C07_history_consolidatable (env : World) (es₁ es₂ : List Ev) (t0 : Int) (m : Method) (c : Claim)
+    (hc : (specRun env.pool { now := t0 } es₁).claim = some c)
+    (hlive : c.deleting = false) (hlbl : c.md.pool = .this)
+    (hq : ∀ e ∈ es₂, quiet e = true)
+    (hwf : wellFormed ((specRun env.pool { now := t0 } (es₁ ++ [Ev.reconcile] ++ es₂)).world env) = true)
+    (hm : isConsolidation m = true)
+    (h : hselected env (hrun env.batchMax env.pool { now := t0, sn := none } (es₁ ++ [Ev.reconcile] ++ es₂)) m = true) :
+    mayBeConsolidatable env.pool c (specRun env.pool { now := t0 } es₁).now = true := by
+  have ha := C07_history env _ t0 m hwf h
+  unfold allowedAfter at ha
+  simp only [Bool.and_eq_true, Bool.not_eq_true'] at ha
+  obtain ⟨⟨_, hall⟩, _⟩ := ha
+  obtain ⟨hnl, _, hcons⟩ := allowed_unfold hall
+  have hok := hcons hm
+  -- the final claim is what the controller left
+  rw [List.append_assoc, specRun_append] at hok hnl
+  generalize hl₁ : specRun env.pool { now := t0 } es₁ = l₁ at *
+  have hfinal : (specRun env.pool l₁ ([Ev.reconcile] ++ es₂)).claim = some (afterController env.pool c l₁.now) := by
+    simp only [List.singleton_append, specRun]
+    apply quiet_run_keeps_claim env.pool es₂ _ _ hq
+    simp [specStep, hc]
+  generalize specRun env.pool l₁ ([Ev.reconcile] ++ es₂) = lf at *
+  unfold consolidationOk at hok
+  simp only [Bool.and_eq_true, Bool.not_eq_true'] at hok
+  obtain ⟨⟨⟨⟨hcd, hdyn⟩, _⟩, _⟩, _⟩ := hok
+  have hdyn' : env.pool.static = false := hdyn
+  -- managed ⇒ the pool exists
+  have hpres : env.pool.present = true := by
+    unfold nodeLevelBlocker at hnl
+    simp only [Bool.or_eq_false_iff] at hnl
+    have hun := hnl.1.1.1.1
+    unfold unmanaged at hun
+    simp only [Bool.or_eq_false_iff] at hun
+    have h2 := hun.2
+    simp only [Log.world] at h2
+    cases hn : lf.node with
+    | none => simp [hn] at h2
+    | some n =>
+      simp only [hn, Bool.or_eq_false_iff, Bool.not_eq_false'] at h2
+      exact h2.1.2
+  unfold consolidatable at hcd
+  simp only [Log.world, hfinal] at hcd
+  unfold afterController at hcd
+  have hp : (c.md.pool != PoolRef.this) = false := by simp [hlbl]
+  simp only [hlive, hp, hpres, hdyn', Bool.or_false, Bool.not_true, Bool.false_eq_true, if_false] at hcd
+  cases hmb : mayBeConsolidatable env.pool c l₁.now with
+  | true => rfl
+  | false => simp [hmb] at hcd
+
+/-- **C07_new_candidate** — `NewCandidate` per disruption class: graceful never overrides a pod-level blocker,
+    eventual only with a terminationGracePeriod; no class overrides a node-level blocker -/
+theorem C07_new_candidate (w : World) (cls : Class) (hwf : wellFormed w = true)
+    (h : newCandidate w cls = .ok) : candidateAllowed w (cls == .eventual) = true := by
+  unfold newCandidate at h
+  cases hs : stateNode w with
+  | none => simp [hs] at h
+  | some s =>
+    simp only [hs] at h
+    obtain ⟨hq, hv, md, hmd, hp, hpods⟩ := newCandidate_ok h
+    obtain ⟨hnl, hnode, _, _, _⟩ := node_ok hwf hs hq hv hmd hp
+    obtain ⟨hcl, _, _, _⟩ := stateNode_some hs
+    unfold candidateAllowed
+    rw [hnl]
+    rcases hpods with hvp | ⟨htgp, hcls⟩
+    · rw [validatePods_eq s w hnode] at hvp
+      simp [hvp]
+    · rw [← tgp_eq hcl, htgp, hcls]
+      simp
+
+/-- **C07_empty_literal** — with Kubernetes' default costs (no negative deletion cost, no negative priority) "empty" is literal: the node
+    hosts no pod that would have to move, and holds no capacity-buffer placement -/
+theorem C07_empty_literal (w : World)
+    (hdef : ∀ p ∈ w.pods, 0 ≤ p.delCost.getD 0 ∧ 0 ≤ p.prio.getD 0) :
+    empty w = true ↔ (w.buffer = 0 ∧ ∀ p ∈ w.pods, p.onNode = true → mustMove p = false) := by
+  unfold empty hosted
+  simp only [Bool.and_eq_true, beq_iff_eq, List.all_eq_true, List.mem_filter, Bool.not_eq_true', and_imp]
+  constructor
+  · rintro ⟨hb, hall⟩
+    refine ⟨hb, ?_⟩
+    intro p hp hon
+    have := hall p hp hon
+    have hcontrib : contributes p = true := by
+      unfold contributes
+      have ⟨h1, h2⟩ := hdef p hp
+      have e1 : CandidateFacts.evictionBase = 1 := by decide
+      have e3 : CandidateFacts.evictionDelExp = 27 := by decide
+      have e4 : CandidateFacts.evictionPrioExp = 25 := by decide
+      rw [e1, e3, e4]
+      show decide (0 < 1 * (2:Int) ^ (max 27 25) + p.delCost.getD 0 * (2:Int) ^ (max 27 25 - 27) + p.prio.getD 0 * (2:Int) ^ (max 27 25 - 25)) = true
+      have p0 : (2:Int) ^ (max 27 25 - 27) = 1 := by decide
+      have p1 : (2:Int) ^ (max 27 25 - 25) = 4 := by decide
+      have p2 : (2:Int) ^ (max 27 25) = 134217728 := by decide
+      rw [p0, p1, p2]
+      simp only [decide_eq_true_eq]
+      omega
+    rw [hcontrib] at this
+    simpa using this
+  · rintro ⟨hb, hall⟩
+    refine ⟨hb, ?_⟩
+    intro p hp hon
+    rw [hall p hp hon]
+    rfl
+
+/-! ## Non-vacuity -/
+
+def okMeta : Meta := { dnd := .none, pool := .this, it := .known, ct := true, zone := true }
+
+def okClaim : Claim :=
+  { md := okMeta, deleting := false, terminating := .absent, tgp := false, drifted := .true_, consolidatable := .true_,
+    initialized := .true_, initAt := 10000000000, lastPodEvent := none }
+
+def okNode : Node := { md := okMeta, init := .true_, reg := .true_, deleting := false }
+
+def okPool : Pool :=
+  { present := true, managed := true, static := false, consolidateAfter := some 30000000000,
+    policy := .whenEmptyOrUnderutilized, hasITs := true }
+
+def plainPod : Pod :=
+  { onNode := true, ns := 0, app := none, terminal := false, terminating := false, daemon := false, mirror := false,
+    sts := false, tol := .none, dnd := .none, start := some 3600000000000, notReady := false, delCost := none, prio := none }
+
+def busy : World :=
+  { now := 7200000000000, batchMax := 10000000000, claim := some okClaim, node := some okNode, marked := false,
+    nominatedAt := none, inQueue := false, buffer := 0, pool := okPool, pods := [plainPod], pdbs := [] }
+
+def okStatic : World := { busy with pool := { okPool with static := true } }
+def emptyNode : World := { busy with pods := [{ plainPod with daemon := true }] }
+def dndPod : Pod := { plainPod with dnd := .true_ }
+def blockedTGP : World := { busy with claim := some { okClaim with tgp := true }, pods := [dndPod] }
+def blockedNoTGP : World := { busy with pods := [dndPod] }
+
+/-- the lifecycle hypothesis `wellFormed` of `C07_no_protected` cannot be dropped: a Node that carries
+    `karpenter.sh/initialized=true` but has LOST `karpenter.sh/registered` (only possible by tampering with
+    Karpenter's own labels: registration sets the label before initialization can happen and nothing removes it) is
+    read through its NodeClaim's annotations, so a do-not-disrupt annotation on the Node object is not seen.  The
+    real code behaves the same (modifier `reg-absent` of `c07.candidate`, model equality). -/
+theorem C07_wellFormed_needed :
+    let w := { busy with node := some { okNode with reg := .absent, md := { okMeta with dnd := .true_ } } }
+    wellFormed w = false ∧ nodeDoNotDisrupt w = true ∧ selected w .drift = true := by decide
+
+-- every method selects some node (the hypotheses of C07_no_protected are satisfiable for each method) …
+example : wellFormed busy = true ∧ selected busy .drift = true ∧ selected busy .multi = true ∧
+    selected busy .single = true ∧ selected busy .emptiness = false := by decide
+example : selected emptyNode .emptiness = true ∧ selected emptyNode .multi = false := by decide
+example : selected okStatic .staticDrift = true ∧ selected okStatic .drift = false := by decide
+-- … the override exception is real and is the only one …
+example : podDoNotDisrupt blockedTGP = true ∧ selected blockedTGP .drift = true ∧ selected blockedTGP .multi = false ∧
+    selected blockedNoTGP .drift = false := by decide
+-- … each node-level blocker alone flips every selection …
+example : selected { busy with marked := true } .drift = false ∧
+    selected { busy with inQueue := true } .drift = false ∧
+    selected { busy with nominatedAt := some (7200000000000 - 20000000000 + 1) } .drift = false ∧
+    selected { busy with nominatedAt := some (7200000000000 - 20000000000) } .drift = true ∧
+    selected { busy with node := some { okNode with md := { okMeta with dnd := .true_ } } } .drift = false ∧
+    selected { busy with node := some { okNode with init := .other } } .drift = false ∧
+    selected { busy with claim := none } .drift = false := by decide
+-- … duration-valued annotations at the clock edge (start 3600 s, now 7200 s: age exactly 3600 s) …
+example : dndActive 7200000000000 { plainPod with dnd := .dur 3600000000001 } = true ∧
+    dndActive 7200000000000 { plainPod with dnd := .dur 3600000000000 } = false ∧
+    dndActive 7200000000000 { plainPod with dnd := .dur 60, start := none } = true ∧
+    dndActive 7200000000000 { plainPod with dnd := .dur (-5) , start := none } = false := by decide
+-- … a pod that declared itself free to disrupt leaves the node "empty" (designs/balanced-consolidation.md) …
+example : empty { busy with pods := [{ plainPod with delCost := some (-134217728) }] } = true ∧
+    empty { busy with pods := [{ plainPod with delCost := some (-134217727) }] } = false ∧
+    empty { emptyNode with buffer := 1 } = false := by decide
+-- … the Consolidatable condition at the consolidateAfter edge (last pod event at 7170 s, consolidateAfter 30 s) …
+example : consolidatableAfter okPool { okClaim with lastPodEvent := some 7170000000000 } 7200000000000 = .true_ ∧
+    consolidatableAfter okPool { okClaim with lastPodEvent := some 7170000000000 } 7199999999999 = .absent ∧
+    mayBeConsolidatable okPool { okClaim with lastPodEvent := some 7170000000000 } 7199999999999 = false := by decide
+-- … and a history: nominate, wait out the window, mark, unmark; Drift's verdict after every event
+def demoHistory : List Ev :=
+  [.claim (some okClaim), .node (some okNode), .nominate, .tick 19999999999, .tick 1, .mark, .node (some okNode), .unmark]
+example : (hobserve busy { now := 0, sn := none } demoHistory).map (fun r => r.getD 2 false)
+    = [false, true, false, false, true, false, false, true] := by decide
+example : wellFormed ((specRun busy.pool { now := 0 } demoHistory).world busy) = true ∧
+    hselected busy (hrun busy.batchMax busy.pool { now := 0, sn := none } demoHistory) .drift = true := by decide
+
 end Karp.C07
